@@ -10,7 +10,7 @@ Definition simple_step (stp : option Z) : bool := match stp with None => true | 
 Definition proved_op2 (o : op) : bool :=
   match o with
   | ONop | OSetWf _ _ | OSetRepCount _ _ | OSetRepDef _ _ | OQueryDur _ | OQueryBody _ | OEq _ _
-  | OAppend _ _ | OCopyAppend _ _ _ | OUnroll _ | OUnrollChildren _ | OMerge _ => true
+  | OAppend _ _ | OCopyAppend _ _ _ | OUnroll _ | OUnrollChildren _ | OMerge _ | OSetInt _ _ _ | OSplit _ _ | OEncapsulate _ => true
   | OSetSlice _ _ _ stp _ => simple_step stp
   | _ => false
   end.
@@ -21,14 +21,18 @@ Proof.
   intros I PO H OK.
   destruct (proved_op' o) eqn:P1; [eapply step_partial'; eauto|].
   destruct o; try discriminate; cbn in H.
+  - eapply run_at_inv; eauto. intros x h' res Rx Hk Okr. cbv beta in Hk.
+    eapply setitem_int_fresh_inv; [apply build_fresh|exact I|exact Rx|exact Hk|exact Okr].
   - (* OSetSlice *)
     assert (ST : step = None \/ step = Some 1%Z).
     { cbn in PO. destruct step as [z|]; [right; apply Z.eqb_eq in PO; congruence|now left]. }
     eapply run_at_inv; eauto. intros x h' res Rx Hk Okr. cbv beta in Hk.
     eapply setslice_build_inv; eauto.
-  - eapply run_at_inv; eauto. intros x h' res Rx Hk Okr. eapply unroll_inv; eauto.
-  - eapply run_at_inv; eauto. intros x h' res Rx Hk Okr. eapply unroll_children_inv; eauto.
-  - eapply run_at_inv; eauto. intros x h' res Rx Hk Okr. eapply try_merge_inv; eauto.
+  - eapply run_at_inv; eauto. intros x h' res Rx Hk Okr. cbv beta in Hk. eapply unroll_inv; eauto.
+  - eapply run_at_inv; eauto. intros x h' res Rx Hk Okr. cbv beta in Hk. eapply unroll_children_inv; eauto.
+  - eapply run_at_inv; eauto. intros x h' res Rx Hk Okr. cbv beta in Hk. eapply split_inv; eauto.
+  - eapply run_at_inv; eauto. intros x h' res Rx Hk Okr. cbv beta in Hk. eapply encapsulate_inv; eauto.
+  - eapply run_at_inv; eauto. intros x h' res Rx Hk Okr. cbv beta in Hk. eapply try_merge_inv; eauto.
 Qed.
 
 Lemma history_partial2 : forall ops s,
